@@ -36,6 +36,7 @@ static int cmd_replay(int argc, char **argv) {
 	ops::Plan plan;
 	if (!ops::plan_from_json(*pj, plan, err)) { fprintf(stderr, "replay: %s\n", err.c_str()); return 2; }
 	if (plan.fullmem_model) exec::enable_shipped_full_mem_model();
+	{ gen::Context wgc; wgc.property = plan.property; gen::init_context(wgc); exec::Options wopt; wopt.run_index = ~(uint64_t)0; exec::execute(gen::warmup_plan(wgc), wopt); }
 	exec::Options opt; opt.replay = true; opt.trace = arg_flag(argc, argv, "--trace");
 	exec::Report rep = exec::execute(plan, opt);
 	printf("%s\n", exec::report_to_json(rep, plan, arg_flag(argc, argv, "--with-plan")).c_str());
@@ -62,10 +63,16 @@ static int cmd_worker(int argc, char **argv) {
 	if (mode == "fullshipped") exec::enable_shipped_full_mem_model();
 	gen::Context gc; gc.property = prop; gc.tier = tier; gc.mode = mode;
 	gen::init_context(gc);
+	{ // warm-up (not counted; see gen::warmup_plan)
+		exec::Options wopt; wopt.run_index = ~(uint64_t)0;
+		exec::Report wr = exec::execute(gen::warmup_plan(gc), wopt);
+		printf("{\"type\":\"warmup\",\"ops\":%d,\"invalid\":%s,\"violations\":%zu}\n", wr.ops_executed, wr.invalid ? "true" : "false", wr.violations.size());
+		fflush(stdout);
+	}
 	if (mode == "enum") { uint64_t n = gen::enum_size(gc); if (to > n) to = n; printf("{\"type\":\"enum\",\"size\":%llu}\n", (unsigned long long)n); fflush(stdout); }
 	uint64_t done = 0;
 	for (uint64_t idx = from; idx < to; idx += step) {
-		if (budget > 0 && now_s() - t0 > budget) break;
+		if (budget > 0 && done > 0 && now_s() - t0 > budget) break; // every worker completes at least one run however slow the machine
 		uint64_t run_seed = rt::mix64(rt::mix_str(seed, prop.c_str()), idx);
 		double t1 = now_s();
 		ops::Plan plan = gen::generate(gc, run_seed, idx);
